@@ -8,6 +8,7 @@ import Driver.RangeDrv
 import Driver.MatcherDrv
 import Driver.PrintDrv
 import Driver.ClausesDrv
+import Driver.CoroDrv
 
 open Tromp
 
@@ -138,6 +139,7 @@ def main (args : List String) : IO UInt32 := do
   | ["matcher"] => Driver.matcherLoop stdin stdout; return 0
   | ["print"] => Driver.printLoop stdin stdout; return 0
   | ["clauses"] => Driver.clausesLoop stdin stdout; return 0
+  | ["coro"] => Driver.coroLoop stdin stdout {}; return 0
   | _ =>
     IO.eprintln "usage: tmodel world < script"
     return 2
